@@ -61,6 +61,8 @@ var cssExtraPool = []string{
 var hostileFrags = []string{
 	"url(javascript:alert(1))", "url(data:text/html,x)", "url(//e.example/x)", "url(ftp://e/x)", "expression(alert(1))",
 	"javascript:alert(1)", "data:text/html,x", "\\", "\\75rl(", "<", ">", "</style>", "@import", "@",
+	// url() arguments that merely begin with the letters http
+	"url(httpx://e.x/a)", "url(httpdata:x)", "url(http:javascript:x)", "url(https:e.x/a)",
 }
 
 // containsHostile is the independent scanner for the constructs the property names.
@@ -81,7 +83,7 @@ func containsHostile(v string) bool {
 			arg = arg[:j]
 		}
 		arg = strings.Trim(strings.TrimSpace(arg), "'\"")
-		if !strings.HasPrefix(arg, "http:") && !strings.HasPrefix(arg, "https:") {
+		if !strings.HasPrefix(arg, "http://") && !strings.HasPrefix(arg, "https://") {
 			return true
 		}
 		rest = rest[i+4:]
